@@ -5,7 +5,7 @@ import ast
 from .. import AnalysisError
 from ..flow import show, walk_term
 from ..report import ob_ok, ob_fail, ob_undecided
-from .common import (is_call, method_call, node_attr, edge_attr, elem_of, strip_wrappers, guards_of,
+from .common import (reachable_none_aware, is_call, method_call, node_attr, edge_attr, elem_of, strip_wrappers, guards_of,
                      enclosing_loops, need, contains, strip_sites)
 from . import truth
 
@@ -464,7 +464,7 @@ def pair_resolver_consume(repo, tier="quick"):
     for h in handlers:
         hn = cfg.nodes[h]
         catches = ast.unparse(hn.ast.type) if hn.ast.type is not None else "<bare>"
-        reach = cfg.reachable_from(h, avoid=iter_end)
+        reach = reachable_none_aware(fi, h, avoid=iter_end)
         hit = [a for _, a, _ in bs.adds if a in reach]
         (obs.append(ob_fail("PAIR.resolver-consume", fi, hn.ast, construct="except %s: ... add_edge" % catches, instance="no-match",
                             reason="after a failed match a bond is still created in the same iteration")) if hit else
